@@ -110,6 +110,24 @@ func execC09(seg []Ev) []Ev {
 					guarded(func() { t.SetQuoteSymbols([]rune{0x3, seps[0]}) })
 					guarded(func() { t.SetFieldSeparators([]rune{'\n'}) })
 					t.SetQuoteSymbols(quotes) // a valid call rebuilds the states from what is stored
+				} else if cfg == "eolfirst" {
+					// the row separator property is set before the other setters run (it names what a writer would put between
+					// rows; all four line-break spellings are still row ends when reading)
+					t.SetEndOfLine([]string{"\n", "\r", "\r\n", "|"}[len(text)%4])
+					t.SetFieldSeparators([]rune{0x1})
+					t.SetQuoteSymbols(quotes)
+					t.SetFieldSeparators(seps)
+				} else if cfg == "views" {
+					// separators and quote symbols handed over as two views into ONE array of the caller's (the first one with spare
+					// capacity reaching into the second): the library copies or only reads them
+					all := make([]rune, 0, len(seps)+len(quotes)+4)
+					all = append(append(all, seps...), quotes...)
+					t.SetFieldSeparators([]rune{0x1})
+					t.SetQuoteSymbols(all[len(seps):])
+					t.SetFieldSeparators(all[:len(seps)])
+					if string(all) != string(seps)+string(quotes) {
+						e["held_what"], e["held_then"], e["held_now"] = "the caller's array of separators and quote symbols after it was handed to the setters", string(seps)+string(quotes), string(all)
+					}
 				} else if cfg == "doubled" {
 					// every separator and quote character listed twice
 					t.SetFieldSeparators(append(append([]rune{}, seps...), seps...))
@@ -196,7 +214,11 @@ func genC09(g *Gen) {
 			plans = append(plans, prow)
 		}
 		cfg := "set"
-		switch x := r.Intn(9); {
+		switch x := r.Intn(12); {
+		case x == 9:
+			cfg = "eolfirst"
+		case x == 10 || x == 11:
+			cfg = "views"
 		case len(seps) == 1 && x < 3:
 			cfg = "getset"
 		case x == 3 || x == 4:
